@@ -97,3 +97,145 @@ Section LogFacts.
     eauto.
   Qed.
 End LogFacts.
+
+(* ------------------------------------------------------------------ *)
+(** * Lists of requests and acknowledgements *)
+
+Lemma req_is_spec c t ctx r : req_is c t ctx r = true <-> rq_c r = c /\ rq_t r = t /\ rq_ctx r = ctx.
+Proof.
+  unfold req_is. split.
+  - intros H. apply andb_prop in H. destruct H as [H H3]. apply andb_prop in H. destruct H as [H1 H2].
+    apply N.eqb_eq in H1, H2, H3. auto.
+  - intros (-> & -> & ->). rewrite !N.eqb_refl. reflexivity.
+Qed.
+
+Lemma req_eta (r : rreq) : r = (rq_c r, rq_t r, rq_ctx r, rq_idx r, rq_snap r).
+Proof. destruct r as [[[[c t] ctx] idx] snap]. reflexivity. Qed.
+
+Lemma req_from_none c t ctx l : existsb (req_is c t ctx) l = false -> req_from c t ctx l = [].
+Proof.
+  induction l as [|r l IH]; cbn; [reflexivity|]. intros H. apply orb_false_elim in H. destruct H as [H1 H2].
+  rewrite H1. apply IH. exact H2.
+Qed.
+
+Lemma req_from_app c t ctx l x : existsb (req_is c t ctx) l = true ->
+  req_from c t ctx (l ++ x) = req_from c t ctx l ++ x.
+Proof.
+  induction l as [|r l IH]; cbn; [discriminate|]. destruct (req_is c t ctx r); [reflexivity|]. cbn. exact IH.
+Qed.
+
+Lemma req_from_app_none c t ctx l x : existsb (req_is c t ctx) l = false ->
+  req_from c t ctx (l ++ x) = req_from c t ctx x.
+Proof.
+  induction l as [|r l IH]; cbn; [reflexivity|]. intros H. apply orb_false_elim in H. destruct H as [H1 H2].
+  rewrite H1. apply IH. exact H2.
+Qed.
+
+Lemma req_from_incl c t ctx l r : In r (req_from c t ctx l) -> In r l.
+Proof.
+  induction l as [|r0 l IH]; cbn; [auto|]. destruct (req_is c t ctx r0); [auto|]. intros H. right. apply IH. exact H.
+Qed.
+
+Lemma req_from_head c t ctx l r later : req_from c t ctx l = r :: later -> req_is c t ctx r = true.
+Proof.
+  induction l as [|r0 l IH]; cbn; [discriminate|]. destruct (req_is c t ctx r0) eqn:E; [|exact IH].
+  intros H. inversion H; subst. exact E.
+Qed.
+
+Lemma ackers_In hs c t ctx q : In q (ackers hs c t ctx) <-> In (q, c, t, ctx) hs.
+Proof.
+  unfold ackers. rewrite in_map_iff. split.
+  - intros ([[[q0 c0] t0] ctx0] & <- & H). apply filter_In in H. destruct H as [Hin H]. unfold hack_is in H. cbn in *.
+    apply andb_prop in H. destruct H as [H H3]. apply andb_prop in H. destruct H as [H1 H2].
+    apply N.eqb_eq in H1, H2, H3. subst. exact Hin.
+  - intros H. exists (q, c, t, ctx). split; [reflexivity|]. apply filter_In. split; [exact H|].
+    unfold hack_is. cbn. rewrite !N.eqb_refl. reflexivity.
+Qed.
+
+Lemma existsb_req_In c t ctx l : existsb (req_is c t ctx) l = true <->
+  exists r, In r l /\ rq_c r = c /\ rq_t r = t /\ rq_ctx r = ctx.
+Proof.
+  rewrite existsb_exists. split; intros (r & Hin & H); exists r; (split; [exact Hin|]); apply req_is_spec; exact H.
+Qed.
+
+(* ------------------------------------------------------------------ *)
+(** * Inversion of the read rules *)
+
+Section ReadRules.
+  Variables (inc out : list N).
+  Notation rrule := (rrule inc out).
+
+  Lemma is_up_leader_spec s c : is_up_leader s c = true <->
+    p_up (nodes (el (pr_lg s)) c) = true /\ p_role (nodes (el (pr_lg s)) c) = PL.
+  Proof.
+    unfold is_up_leader. destruct (p_up _), (p_role _); cbn; split; intros; try tauto; try discriminate;
+      destruct H; discriminate.
+  Qed.
+
+  Lemma rlog_inv l s s' : rrule (RLog l) s = Some s' ->
+    exists g, lrule inc out l (pr_lg s) = Some g /\ s' = mkRS g (pr_reqs s) (pr_hacks s) (pr_served s).
+  Proof. cbn. destruct (lrule inc out l (pr_lg s)) as [g|]; [|discriminate]. intros H. inversion H. eauto. Qed.
+
+  Lemma rreadreq_inv c ctx s s' : rrule (RReadReq c ctx) s = Some s' ->
+    let t := p_term (nodes (el (pr_lg s)) c) in
+    let x := ln (pr_lg s) c in
+    p_up (nodes (el (pr_lg s)) c) = true /\ p_role (nodes (el (pr_lg s)) c) = PL /\
+    (1 <= l_commit x)%nat /\ term_at (l_log x) (l_commit x) = t /\
+    existsb (req_is c t ctx) (pr_reqs s) = false /\
+    s' = mkRS (pr_lg s) (pr_reqs s ++ [(c, t, ctx, l_commit x, cpts (pr_lg s))]) (pr_hacks s) (pr_served s).
+  Proof.
+    cbn [Read.rrule]. cbv zeta. intros H.
+    match type of H with (if ?g then _ else _) = _ => destruct g eqn:Hg; [|discriminate] end.
+    inversion H; subst; clear H.
+    apply andb_prop in Hg. destruct Hg as [Hg H4]. apply andb_prop in Hg. destruct Hg as [Hg H3].
+    apply andb_prop in Hg. destruct Hg as [H1 H2]. apply is_up_leader_spec in H1. destruct H1 as [Hup Hrl].
+    apply Nat.leb_le in H2. apply N.eqb_eq in H3. apply negb_true_iff in H4. auto 10.
+  Qed.
+
+  Lemma rhback_inv q c t ctx s s' : rrule (RHbAck q c t ctx) s = Some s' ->
+    p_up (nodes (el (pr_lg s)) q) = true /\ p_term (nodes (el (pr_lg s)) q) = t /\ q <> c /\
+    existsb (req_is c t ctx) (pr_reqs s) = true /\
+    s' = mkRS (pr_lg s) (pr_reqs s) ((q, c, t, ctx) :: pr_hacks s) (pr_served s).
+  Proof.
+    cbn [Read.rrule]. cbv zeta. intros H.
+    match type of H with (if ?g then _ else _) = _ => destruct g eqn:Hg; [|discriminate] end.
+    inversion H; subst; clear H.
+    apply andb_prop in Hg. destruct Hg as [Hg H4]. apply andb_prop in Hg. destruct Hg as [Hg H3].
+    apply andb_prop in Hg. destruct Hg as [H1 H2]. apply N.eqb_eq in H2. apply negb_true_iff, N.eqb_neq in H3. auto 10.
+  Qed.
+
+  Lemma rserve_inv c ctx s s' : rrule (RReadServe c ctx) s = Some s' ->
+    let t := p_term (nodes (el (pr_lg s)) c) in
+    exists r later, req_from c t ctx (pr_reqs s) = r :: later /\
+      p_up (nodes (el (pr_lg s)) c) = true /\ p_role (nodes (el (pr_lg s)) c) = PL /\
+      (exists r', In r' (r :: later) /\ rq_c r' = c /\ rq_t r' = t /\
+                  quorum inc out (c :: ackers (pr_hacks s) c t (rq_ctx r')) = true) /\
+      s' = mkRS (pr_lg s) (pr_reqs s) (pr_hacks s) ((c, t, ctx, rq_idx r) :: pr_served s).
+  Proof.
+    cbn [Read.rrule]. cbv zeta. intros H.
+    destruct (req_from c (p_term (nodes (el (pr_lg s)) c)) ctx (pr_reqs s)) as [|r later] eqn:Ef; [discriminate|].
+    match type of H with (if ?g then _ else _) = _ => destruct g eqn:Hg; [|discriminate] end.
+    inversion H; subst; clear H. exists r, later. split; [reflexivity|].
+    apply andb_prop in Hg. destruct Hg as [H1 H2]. apply is_up_leader_spec in H1. destruct H1 as [Hup Hrl].
+    apply existsb_exists in H2. destruct H2 as (r' & Hin & H2).
+    apply andb_prop in H2. destruct H2 as [H2 H5]. apply andb_prop in H2. destruct H2 as [H3 H4].
+    apply N.eqb_eq in H3, H4. repeat split; try assumption. exists r'. auto.
+  Qed.
+
+  Lemma rstep_lg l s s' : rrule l s = Some s' ->
+    pr_lg s' = pr_lg s \/ exists ll, l = RLog ll /\ lrule inc out ll (pr_lg s) = Some (pr_lg s').
+  Proof.
+    intros H. destruct l as [ll|c ctx|q c t ctx|c ctx].
+    - right. destruct (rlog_inv _ _ _ H) as (g & Hg & ->). eauto.
+    - left. apply rreadreq_inv in H. cbv zeta in H. destruct H as (_ & _ & _ & _ & _ & ->). reflexivity.
+    - left. apply rhback_inv in H. destruct H as (_ & _ & _ & _ & ->). reflexivity.
+    - left. apply rserve_inv in H. cbv zeta in H. destruct H as (r & later & _ & _ & _ & _ & ->). reflexivity.
+  Qed.
+
+  Theorem rreachable_lg s : rreachable inc out s -> lreachable inc out (pr_lg s).
+  Proof.
+    induction 1 as [|s l s' Hr IH Hstep]; [apply lreach_init|].
+    destruct (rstep_lg _ _ _ Hstep) as [E|(ll & _ & Hl)]; [rewrite E; exact IH|].
+    eapply lreach_step; eassumption.
+  Qed.
+End ReadRules.
